@@ -1035,10 +1035,16 @@ class PolarsModel(data_algebra.data_model.DataModel):
         how = op.jointype.lower()
         if how == "full":
             how = "outer"
+        # only a key pair with the same name on both sides is one column; a left key whose name is a non-key
+        # column of the right table (or the other way round) is a shared column like any other
+        same_named_keys = set([c_a for c_a, c_b in zip(op.on_a, op.on_b) if c_a == c_b])
         if how != "right":
-            coalesce_columns = set(op.sources[0].columns_produced()).intersection(
-                op.sources[1].columns_produced()
-            ) - set(op.on_a)
+            coalesce_columns = (
+                set(op.sources[0].columns_produced()).intersection(
+                    op.sources[1].columns_produced()
+                )
+                - same_named_keys
+            )
             if how == "outer":
                 # a full join keeps both copies of a same-named key: right-only rows need the right copy
                 coalesce_columns = coalesce_columns.union(
@@ -1081,9 +1087,12 @@ class PolarsModel(data_algebra.data_model.DataModel):
                 res = res.rename({f"{c}_da_join_tmp_key": c for c in orphan_keys})
         else:
             # simulate right join with left join
-            coalesce_columns = set(op.sources[0].columns_produced()).intersection(
-                op.sources[1].columns_produced()
-            ) - set(op.on_b)
+            coalesce_columns = (
+                set(op.sources[0].columns_produced()).intersection(
+                    op.sources[1].columns_produced()
+                )
+                - same_named_keys
+            )
             orphan_keys = [c for c in op.on_a if c not in set(op.on_b)]
             input_right = inputs[0]
             if len(orphan_keys) > 0:
